@@ -9,7 +9,13 @@ samples command lines of 5-6 filters over the full alphabet with -simulate, chec
 each, and writes one vector per case.  This harness renders every vector to a real argv, calls the real
 `parse_filters` (directly the way cmd_run does, and for a share of the cases through `cmd_run` itself), compares the
 result with the reference wiring (a difference alone is drift) and evaluates the four laws on the *real* result
-(a false law is a violation).
+(a false law is a violation).  A source that names another filter is written with the id the code under test gives that
+filter (if the automatic names differ from the reference that is drift, and the command line is rendered again with the
+code's names), so a change of the naming convention alone never raises an alarm.
+
+Verdict kinds (signature {law, kind}): UniqueIds/dup_id|no_id; EverySourceBound/unbound|multi_bound|wrong_target|suffix|
+not_rewritten|source_lost|ipc_name_clash|chain_*; PortsDisjoint/overlap_user|overlap_auto; PassThrough/id|outputs|
+sources|option|filter_count; Wired/exception (the code rejects a command line of the valid domain).
 """
 import concurrent.futures as cf
 import hashlib
@@ -607,7 +613,7 @@ def tlc_run(run, tmp, idx, workers):
     if run['kind'] == 'sampled':
         kw = dict(simulate=run['simulate'], depth=12, seed=run['seed'], workers=1)
     else:
-        kw = dict(workers=workers)
+        kw = dict(workers=1 if run['kind'] == 'expect' else workers)   # one worker: the same counterexample every run
     env = {} if run['kind'] in ('expect', 'design') else {'VERIF_OUT': out}
     res = run_tlc(SPEC_DIR, run['cfg'], MODULE, env=env, timeout=3000, **kw)
     return run, res, out
@@ -637,6 +643,7 @@ def run(ctx):
     viol, drift, empties = {}, [], []
     ndrift = ndesign = 0
     per_run = []
+    sample_of = {}
     nproc = max(2, NCPU - 4)
 
     def merge(s, run_samples):
@@ -697,11 +704,14 @@ def run(ctx):
                     per_run.append({'config': r['cfg'], 'seed': r.get('seed'), 'cases': ncase})
                     if r['kind'] == 'exhaustive' and ncase == 0:
                         raise MachineryError(f'{r["cfg"]}: no cases')
-                    if run_samples and len(rep.samples) < 6 and r.get('seed', 0) % 500 in (0, 1):
-                        rep.sample(sorted(run_samples, key=lambda e: (-len(e['argv']), ' '.join(e['argv'])))[0])
+                    if run_samples:
+                        best = sorted(run_samples, key=lambda e: (-len(e['argv']), ' '.join(e['argv'])))[0]
+                        sample_of.setdefault(r['cfg'], {'config': r['cfg'], **best})
     finally:
         import shutil
         shutil.rmtree(tmp, ignore_errors=True)
+    for cfg in sorted(sample_of, key=lambda c: (not c.endswith('_sim'), not c.endswith('_sim_small'), c))[:6]:
+        rep.sample(sample_of[cfg])
     # verdicts
     for (law, kind), lst in sorted(viol.items()):
         for argv, line, rec in lst:
